@@ -23,7 +23,7 @@ RULE = (
 )
 ASSUMPTIONS = [
     "attribute values are chosen so that reference keys never collide (collisions are C05)",
-    "':field:' specs are exercised for the string columns seqid and source (strand only inside a callable)",
+    "':field:' specs are exercised for the string columns seqid and source and the numeric column start (strand only inside a callable)",
     "on rejection only the raised exception is observed (the partially written database is not inspected)",
 ]
 
@@ -52,6 +52,7 @@ SPECS = [
     ("None", None), ("str", "ID"), ("list", ["ID", "Name"]), ("list_rev", ["Name", "ID"]),
     ("dict_str", {"gene": "Name"}), ("dict_list", {"gene": ["ID", "Name"], "exon": "ID"}),
     (":seqid:", ":seqid:"), (":source:", ":source:"), ("list_col", ["Name", ":seqid:"]),
+    (":start:", ":start:"), ("list_start", ["Name", ":start:"]),          # a numeric column; the first line starts at 0
     ("call_none", cb_none), ("call_str", cb_str), ("call_auto", cb_auto), ("list_call", [cb_mixed, "ID"]),
 ]
 
@@ -98,7 +99,7 @@ def ref_ids(spec, feats):
                     got = auto(r[len("autoincrement:"):]) if r.startswith("autoincrement:") else r
                     break
             elif len(k) > 3 and k[0] == ":" and k[-1] == ":":
-                got = cols[k[1:-1]]
+                got = str(cols[k[1:-1]])
                 break
             elif k in attrs and attrs[k]:          # present = carries a value
                 if len(attrs[k]) > 1:
@@ -130,7 +131,7 @@ def body_gff3(ch, ctx):
         if kind in ("name", "both"):
             attrs["Name"] = ["n%d" % i]
         attrs["tag"] = ["t%d" % i]
-        cols = dict(seqid="c%d" % i, source="s%d" % i, start=10 * i + 1, end=10 * i + 5, strand="+-.+"[i])
+        cols = dict(seqid="c%d" % i, source="s%d" % i, start=10 * i, end=10 * i + 5, strand="+-.+"[i])
         ft = pattern[i]
         feats.append((ft, cols, attrs))
         order = [k for k in ("Name", "ID", "tag") if k in attrs] if (sname == "list_rev" or kind == "empty_id") else \
